@@ -5,6 +5,14 @@ import "fmt"
 func registry() []PropSpec {
 	return []PropSpec{
 		{
+			ID: "C20",
+			Quick: []HarnessSpec{
+				{Pkg: pkgCompression, Func: "H20b_q", Unwind: 12, Note: "zstd decompressor wrapper: every history of 4 operations from {Reset(input 1), Reset(input 2), Read, Close} on one pooled instance"},
+			},
+			Stubs: []string{"the zstd library decoder is a contract stub (attached input, closed flag); natively the real klauspost/zstd runs on real zstd streams"},
+			Out:   []string{"the round trip itself and behaviour after malformed input for all six algorithms (loops of third-party compression code: the family's textbook weak target)", "the name <-> enum mapping across packages (constructors of third-party writers are not encodable)"},
+		},
+		{
 			ID: "C15",
 			Quick: []HarnessSpec{
 				{Pkg: pkgTracer, Func: "H15a_q", Unwind: 8, Note: "tracingHTTP2Conn.Read/Write/Close against a fake conn returning n in 0..4 and nil / error / timeout error, client and server side"},
@@ -61,7 +69,7 @@ func registry() []PropSpec {
 				{Pkg: pkgRefClient, Func: "H13a_q", Unwind: 24, Note: "checkGRPCStatus on grpc-status 1..16 and grpc-message = PercentEncodeMessage(m) / m itself, for every byte string m of length <=3"},
 				{Pkg: pkgRefClient, Func: "H13b_q", Unwind: 20, Note: "isValidHTTPFieldName / isValidHTTPFieldValue on every byte string of length <=2"},
 				{Pkg: pkgRefClient, Func: "H13c_q", Unwind: 24, Split: []SplitDim{{"rawlen", 0, 5}, {"lf#0", 0, 1}, {"lf#1", 0, 1}, {"lf#2", 0, 1}, {"lf#3", 0, 1}, {"lf#4", 0, 1}}, CaseNote: "case split: length and the set of LF positions (line structure); all other bytes symbolic over {a, A, colon, space, CR}", Note: "examineGRPCEndStream crash freedom on strings <=5 bytes over {a, A, colon, space, CR, LF}"},
-				{Pkg: pkgRefClient, Func: "H13d_q", Unwind: 24, JobSecs: 900, Note: "examineGRPCEndStream: one well-formed line (key a / b-c, value <=2 bytes over {x,y,space}) and its malformations (LF only, no final CRLF, upper-case key, missing colon, extra blank line)"},
+				{Pkg: pkgRefClient, Func: "H13d_q", Unwind: 24, JobSecs: 900, FeasSecs: 600, Note: "examineGRPCEndStream: one well-formed line (key a / b-c, value <=2 bytes over {x,y,space}) and its malformations (LF only, no final CRLF, upper-case key, missing colon, extra blank line)"},
 			},
 			Stubs: []string{"strings.Split/SplitN/Trim/ToLower, textproto.CanonicalMIMEHeaderKey (ASCII), url.PathUnescape are bounded Go models", "printer = counting stub"},
 			Out:   []string{"Connect JSON examiners (encoding/json)", "grpc-status-details-bin (base64 + protobuf)", "the reference server's own rendering of trailers"},
@@ -194,7 +202,7 @@ func registry() []PropSpec {
 				{Pkg: pkgCC, Func: "H08a_q", Unwind: 6, Recur: 8, Note: "<=2 patterns x <=3 components over {a,b,*,**}; name <=3 components over {a,b}"},
 				{Pkg: pkgCC, Func: "H08b_q", Unwind: 10, Recur: 10, Note: "addPattern/matchPattern on strings <=4 bytes over {a,*,/} (pattern) and {a,/} (name), including empty components"},
 				{Pkg: pkgCC, Func: "H08c_q", Unwind: 8, Recur: 8, Note: "allUnmatched after matching <=2 names (<=2 components) against <=2 patterns (<=2 components)"},
-				{Pkg: pkgMain, Func: "H08f_q", Unwind: 12, UnwindFor: map[string]int{"vModelContains": 40}, Note: "parsePatternFile on any content <=4 bytes over {a,#,newline,space}"},
+				{Pkg: pkgMain, Func: "H08f_q", Unwind: 12, FeasSecs: 200, UnwindFor: map[string]int{"vModelContains": 40}, Note: "parsePatternFile on any content <=4 bytes over {a,#,newline,space}"},
 				{Pkg: pkgMain, Func: "H08e_q", Unwind: 12, UnwindFor: map[string]int{"vModelContains": 40}, Split: []SplitDim{{"nargs", 0, 3}, {"kind#0", 0, 3}, {"kind#1", 0, 3}, {"kind#2", 0, 3}}, CaseNote: "case split: number of args and kind of each arg (2 literals, 2 @files) enumerated; file contents and readability symbolic", Note: "argsToPatterns on <=3 args, each a literal or one of two @files (content <=3 bytes over {a,b,newline}, readable or not)"},
 			},
 			Thorough: []HarnessSpec{
